@@ -19,7 +19,7 @@ S4 = Tuple[str, str, str, str]
 S6 = Tuple[str, str, str, str, str, str]
 B16 = Tuple[bool, bool, bool, bool, bool, bool, bool, bool, bool, bool, bool, bool, bool, bool, bool, bool]
 
-CALLERS = ('internal', 'alpha')
+CALLERS = ('internal', 'alpha', 'betaTesters')
 
 
 class Perm(ss.CallerPermissionsInterface):
@@ -160,7 +160,7 @@ def _missing_required_permissioned(sh, perms):
     return False
 
 
-OM_TYPES = ['Om', 'OmChild', 'OmU', 'OmNest']
+OM_TYPES = ['Om', 'OmChild', 'OmGrand', 'OmU', 'OmNest', 'OmBeta', 'OmBase', 'OmMid', 'OmLeaf']
 RED_TYPES = ['Red', 'RedAlias', 'RedColl', 'RedChild', 'RedU', 'RedNest', 'RedNullable']
 _T_ENC = ['stone.backends.python_rsrc.stone_serializers:json_compat_obj_encode']
 _OUT = ['regexes other than the two in the annotated catalogue', 'md5 itself (G6: fixed digest under the engine)',
@@ -169,8 +169,8 @@ _OUT = ['regexes other than the two in the annotated catalogue', 'md5 itself (G6
 
 @hx.harness(props=['C13'], targets=_T_ENC, items=OM_TYPES,
             bound='per annotated type: all ints, strings <= %d, every subset of optional fields / tag, every subset of '
-                  'the declared caller classes {internal, alpha}' % NS, outside=_OUT, budget=(150, 600))
-def omit_encode(i: I8, s: S4, b: B16, p_internal: bool, p_alpha: bool) -> bool:
+                  'the declared caller classes {internal, alpha, betaTesters}' % NS, outside=_OUT, budget=(150, 600))
+def omit_encode(i: I8, s: S4, b: B16, p_internal: bool, p_alpha: bool, p_beta: bool) -> bool:
     """
     pre: all(len(x) <= NS for x in s)
     post: _
@@ -179,7 +179,7 @@ def omit_encode(i: I8, s: S4, b: B16, p_internal: bool, p_alpha: bool) -> bool:
         dt, validator, val, sh, pool = _build(i, s, b)
     except hx.Skip:
         return True
-    held = [c for c, h in zip(CALLERS, (p_internal, p_alpha)) if h]
+    held = [c for c, h in zip(CALLERS, (p_internal, p_alpha, p_beta)) if h]
     try:
         j = ss.json_compat_obj_encode(validator, val, caller_permissions=Perm(held))
     except bv.ValidationError:
@@ -194,7 +194,7 @@ def omit_encode(i: I8, s: S4, b: B16, p_internal: bool, p_alpha: bool) -> bool:
             items=OM_TYPES,
             bound='documents = encodings (all caller classes held) of every value as in omit_encode; decoded strictly '
                   'under every subset of caller classes', outside=_OUT, budget=(150, 600))
-def omit_decode(i: I8, s: S4, b: B16, p_internal: bool, p_alpha: bool) -> bool:
+def omit_decode(i: I8, s: S4, b: B16, p_internal: bool, p_alpha: bool, p_beta: bool) -> bool:
     """
     pre: all(len(x) <= NS for x in s)
     post: _
@@ -203,7 +203,7 @@ def omit_decode(i: I8, s: S4, b: B16, p_internal: bool, p_alpha: bool) -> bool:
         dt, validator, val, sh, pool = _build(i, s, b)
     except hx.Skip:
         return True
-    held = [c for c, h in zip(CALLERS, (p_internal, p_alpha)) if h]
+    held = [c for c, h in zip(CALLERS, (p_internal, p_alpha, p_beta)) if h]
     doc = ss.json_compat_obj_encode(validator, val, caller_permissions=Perm(CALLERS))
     supplied_forbidden = _omitted_present(dt, sh, held)
     try:
@@ -249,7 +249,7 @@ def explain(fname, args):
         j = ss.json_compat_obj_encode(validator, val, caller_permissions=Perm(CALLERS), should_redact=args['should_redact'])
         out += ' encoded=%r reference=%r' % (_plain(j), wire.ref_encode(dt, sh, perms=CALLERS, redact=args['should_redact']))
     else:
-        held = [c for c, h in zip(CALLERS, (args['p_internal'], args['p_alpha'])) if h]
+        held = [c for c, h in zip(CALLERS, (args['p_internal'], args['p_alpha'], args.get('p_beta', False))) if h]
         try:
             j = ss.json_compat_obj_encode(validator, val, caller_permissions=Perm(held))
         except Exception as e:
